@@ -18,7 +18,7 @@ fn creates(arch: u8, n: usize) -> Vec<Op> {
 pub fn populations(n: usize, nxq: usize) -> Vec<(String, Vec<Op>, Vec<Box<dyn Fn(u16) -> Op>>)> {
     let mut v: Vec<(String, Vec<Op>, Vec<Box<dyn Fn(u16) -> Op>>)> = Vec::new();
     // fresh single archetype (index 3 of WMix = ArchD: tracked + zst + word; index 0 elsewhere)
-    let single = |a: u8| -> Vec<Box<dyn Fn(u16) -> Op>> { (0..4u8).map(move |var| Box::new(move |seed| Op::IterDestroy { sim: 0, arch: a, variant: var, seed }) as Box<dyn Fn(u16) -> Op>).collect() };
+    let single = |a: u8| -> Vec<Box<dyn Fn(u16) -> Op>> { (0..5u8).map(move |var| Box::new(move |seed| Op::IterDestroy { sim: 0, arch: a, variant: var, seed }) as Box<dyn Fn(u16) -> Op>).collect() };
     v.push((format!("fresh n={}", n), creates(3, n), single(3)));
     // churned: create n+2, destroy the first and a middle one, create one more (slot reuse, permuted dense order)
     if n >= 1 {
